@@ -212,6 +212,19 @@ let () =
              | Some d' ->
                let rec show (Doc.XNode (t, k)) = string_of_int (int_of_pos t) ^ " ( " ^ S.concat "" (L.map (fun x -> show x ^ " ") k) ^ ")" in
                print_endline (show d'))))
+    | "slots" :: n :: rest ->
+      (* slots <n> <mro of class 0 | -> ... <mro of class n-1 | -> <body bits> <uses> <schedule>: who owns the slot each use returns, and each class's lookup at the end *)
+      let n = int_of_string n in
+      let csv x = if x = "-" || x = "" then [] else L.map (fun c -> nat_of_int (int_of_string c)) (S.split_on_char ',' x) in
+      let rec take k l = if k = 0 then ([], l) else (match l with h :: t -> let (a, b) = take (k-1) t in (h :: a, b) | [] -> failwith "slots: too few") in
+      let (ms, rest) = take n rest in
+      (match rest with
+       | [bits; uses; sched] ->
+         let bodies = L.init (S.length bits) (fun i -> nat_of_int (Char.code (S.get bits i) - 48)) in
+         let (res, looks) = ClassSlots.owner_run (L.map csv ms) bodies (csv uses) (csv sched) in
+         let show l = S.concat "," (L.map (function None -> "-" | Some v -> string_of_int (int_of_nat v)) l) in
+         print_endline (show res ^ " ; " ^ show looks)
+       | _ -> failwith "slots: bad arguments")
     | "vdoc" :: nf :: toks ->
       (* vdoc <n> {<text cps> <x | f:k:num:den:repr cps>}*n <tree>;  tree := <tag> <text cps> <nattrs> {<name cps> <value cps>}* ( tree* )
          answer: NOMACHINE <tag> | <premise> NOPARSE | <premise> NOEMIT | <premise> OK <tree>;  premise: 2 = of C09_document_values, 1 = of C09_document_values_general only, 0 = neither *)
